@@ -660,14 +660,16 @@ theorem gaps_irregular_rejected (nrm : V3) (f : Nat → V3) (g : Nat → Rat) (h
     rw [hbad] at this; cases this
   simp only [hall, Bool.false_and, Bool.false_eq_true, if_false]
 
-/-- **soundness and order of EVERY answer with gaps allowed** (any rows, any options with sorting on): whenever the function
-answers `(sp, indices)` there are a spacing `s > 0` (= `sp`; the hint if one was given) and a lowest distance `dmin` such that
-every row's index is `round((n·p − dmin)/s)` and the row lies within `rtol + atol/s` (in spacings) of that whole multiple.
+/-- **soundness of EVERY answer with gaps allowed** (any rows, any options with sorting on; the spacing may be the hint or the
+refined estimate, tie: `tie_gaps_expressions`): whenever the function answers `(sp, indices)` there are a spacing `s > 0` (= `sp`;
+the hint if one was given) and the LOWEST distance `dmin` along the normal (attained by a row, below no row) such that every
+row's index is `round((n·p − dmin)/s)` and the row lies within `rtol + atol/s` (in spacings) of that whole multiple.
 Hence indices never decrease along the positive normal, and two rows sharing an index are at most twice the tolerance apart. -/
 theorem gaps_accepted_sound (nrm : V3) (ps : List V3) (op : Opts) (hsort : op.sort = true) (hmiss : op.allowMissing = true)
     (hint : Option Rat) (hhint : ∀ h, hint = some h → 0 < h) (rtol atol spR : Rat) (vp : List Int)
     (h : volumePositionsOf nrm ps op hint rtol atol = .ok (some (spR, vp))) (hmany : (uniqueRows ps).length ≠ 1) :
     ∃ s dmin, 0 < s ∧ spR = s ∧ (∀ hh, hint = some hh → s = hh) ∧
+      (∀ i (hi : i < ps.length), dmin ≤ nrm.dot ps[i]) ∧ (∃ i, ∃ hi : i < ps.length, nrm.dot ps[i] = dmin) ∧
       ∀ i (hi : i < ps.length),
         vp[i]? = some (roundHalfEven ((nrm.dot ps[i] - dmin) / s)) ∧
         isClose ((nrm.dot ps[i] - dmin) / s) ((roundHalfEven ((nrm.dot ps[i] - dmin) / s) : Int) : Rat) 0
@@ -687,22 +689,29 @@ theorem gaps_accepted_sound (nrm : V3) (ps : List V3) (op : Opts) (hsort : op.so
       simp only [Except.ok.injEq, Option.some.injEq, Prod.mk.injEq] at h
       obtain ⟨rfl, rfl⟩ := h
       obtain ⟨s, hsm, hsR⟩ := examine_gaps_some hr
-      obtain ⟨dmin, _, hinv, hreg, hh1, hh2⟩ := spacingMissing_inv hsm
+      obtain ⟨dmin, hdmin, hinv, hreg, hh1, hh2⟩ := spacingMissing_inv hsm
       have hs0 : 0 < s := by
         cases hint with
         | some hh => rw [hh1 hh rfl]; exact hhint hh rfl
         | none => exact estimateSpacing_pos (hh2 rfl)
-      refine ⟨s, dmin, hs0, by rw [hsR, rabs_of_pos hs0], hh1, ?_⟩
-      intro i hi
-      have hmi : ps[i] ∈ uniqueRows ps := (mem_uniqueRows _ ps).mpr (List.getElem_mem hi)
-      obtain ⟨hvi, _⟩ := readIndices_getElem inv (indexIn (uniqueRows ps)) ps vp' hread i hi
-      have hai := List.idxOf_lt_length_of_mem hmi
-      have hgi : (uniqueRows ps)[(uniqueRows ps).idxOf ps[i]] = ps[i] := List.getElem_idxOf hai
-      constructor
-      · rw [hvi, hinv]
-        simp only [indexIn, List.getElem?_map, List.getElem?_eq_getElem hai, hgi, Option.map]
-      · apply hreg rfl
-        exact List.mem_map.mpr ⟨ps[i], hmi, rfl⟩
+      refine ⟨s, dmin, hs0, by rw [hsR, rabs_of_pos hs0], hh1, ?_, ?_, ?_⟩
+      · intro i hi
+        have hmi : ps[i] ∈ uniqueRows ps := (mem_uniqueRows _ ps).mpr (List.getElem_mem hi)
+        exact minList_le hdmin _ (List.mem_map.mpr ⟨ps[i], hmi, rfl⟩)
+      · obtain ⟨q, hq, hqd⟩ := List.mem_map.mp (minList_mem hdmin)
+        have hqp : q ∈ ps := (mem_uniqueRows _ ps).mp hq
+        obtain ⟨i, hi, hiq⟩ := List.getElem_of_mem hqp
+        exact ⟨i, hi, by rw [hiq]; exact hqd⟩
+      · intro i hi
+        have hmi : ps[i] ∈ uniqueRows ps := (mem_uniqueRows _ ps).mpr (List.getElem_mem hi)
+        obtain ⟨hvi, _⟩ := readIndices_getElem inv (indexIn (uniqueRows ps)) ps vp' hread i hi
+        have hai := List.idxOf_lt_length_of_mem hmi
+        have hgi : (uniqueRows ps)[(uniqueRows ps).idxOf ps[i]] = ps[i] := List.getElem_idxOf hai
+        constructor
+        · rw [hvi, hinv]
+          simp only [indexIn, List.getElem?_map, List.getElem?_eq_getElem hai, hgi, Option.map]
+        · apply hreg rfl
+          exact List.mem_map.mpr ⟨ps[i], hmi, rfl⟩
 
 /-- corollary: the indices never decrease along the positive normal -/
 theorem gaps_indices_monotone (nrm : V3) (ps : List V3) (op : Opts) (hsort : op.sort = true) (hmiss : op.allowMissing = true)
@@ -710,10 +719,66 @@ theorem gaps_indices_monotone (nrm : V3) (ps : List V3) (op : Opts) (hsort : op.
     (h : volumePositionsOf nrm ps op hint rtol atol = .ok (some (spR, vp))) (hmany : (uniqueRows ps).length ≠ 1)
     (i j : Nat) (hi : i < ps.length) (hj : j < ps.length) (hle : nrm.dot ps[i] ≤ nrm.dot ps[j]) :
     ∃ vi vj, vp[i]? = some vi ∧ vp[j]? = some vj ∧ vi ≤ vj := by
-  obtain ⟨s, dmin, hs0, _, _, hall⟩ := gaps_accepted_sound nrm ps op hsort hmiss hint hhint rtol atol spR vp h hmany
+  obtain ⟨s, dmin, hs0, _, _, _, _, hall⟩ := gaps_accepted_sound nrm ps op hsort hmiss hint hhint rtol atol spR vp h hmany
   refine ⟨_, _, (hall i hi).1, (hall j hj).1, roundHalfEven_mono ?_⟩
   apply div_le_div_of_nonneg_right _ (le_of_lt hs0)
   linarith
+
+/-- **acceptance soundness in millimetres, for the RETURNED spacing** (hint, or the estimate refined over the extent): whenever
+the function answers `(sp, indices)` with gaps allowed, `sp > 0`, the lowest plane along the normal has index 0, every index is
+`≥ 0`, and every plane lies within `atol + rtol·sp` (mm) of `index · sp` above the lowest plane.  Any rows, any options with
+sorting on. -/
+theorem gaps_accepted_within_tolerance (nrm : V3) (ps : List V3) (op : Opts) (hsort : op.sort = true) (hmiss : op.allowMissing = true)
+    (hint : Option Rat) (hhint : ∀ h, hint = some h → 0 < h) (rtol atol spR : Rat) (vp : List Int)
+    (h : volumePositionsOf nrm ps op hint rtol atol = .ok (some (spR, vp))) (hmany : (uniqueRows ps).length ≠ 1) :
+    0 < spR ∧ ∃ dmin,
+      (∀ i (hi : i < ps.length), dmin ≤ nrm.dot ps[i]) ∧
+      (∃ i, ∃ hi : i < ps.length, nrm.dot ps[i] = dmin ∧ vp[i]? = some 0) ∧
+      ∀ i (hi : i < ps.length), ∃ v : Int, vp[i]? = some v ∧ 0 ≤ v ∧
+        |nrm.dot ps[i] - dmin - (v : Rat) * spR| ≤ atol + rtol * spR := by
+  obtain ⟨s, dmin, hs0, rfl, _, hlow, ⟨i0, hi0, hd0⟩, hall⟩ :=
+    gaps_accepted_sound nrm ps op hsort hmiss hint hhint rtol atol spR vp h hmany
+  refine ⟨hs0, dmin, hlow, ⟨i0, hi0, hd0, ?_⟩, ?_⟩
+  · rw [(hall i0 hi0).1, hd0, sub_self, zero_div]
+    have : roundHalfEven 0 = 0 := by simpa using roundHalfEven_intCast 0
+    rw [this]
+  · intro i hi
+    obtain ⟨hv, hc⟩ := hall i hi
+    refine ⟨_, hv, ?_, ?_⟩
+    · have h0 : roundHalfEven 0 = 0 := by simpa using roundHalfEven_intCast 0
+      rw [← h0]
+      apply roundHalfEven_mono
+      apply div_nonneg _ (le_of_lt hs0)
+      have := hlow i hi; linarith
+    · unfold isClose at hc
+      rw [zero_mul, add_zero, rabs_eq_abs, rabs_of_pos hs0] at hc
+      have hc := of_decide_eq_true hc
+      set v := roundHalfEven ((nrm.dot ps[i] - dmin) / spR)
+      have e : nrm.dot ps[i] - dmin - (v : Rat) * spR = ((nrm.dot ps[i] - dmin) / spR - (v : Rat)) * spR := by
+        field_simp
+      rw [e, abs_mul, abs_of_pos hs0]
+      calc |(nrm.dot ps[i] - dmin) / spR - (v : Rat)| * spR ≤ (rtol + atol / spR) * spR :=
+            mul_le_mul_of_nonneg_right hc (le_of_lt hs0)
+        _ = atol + rtol * spR := by field_simp; ring
+
+/-- … hence **distinct planes get distinct indices in the order of the normal** as soon as they are farther apart than twice the
+tolerance `atol + rtol·sp` (planes closer than that may share an index: both are within tolerance of the same multiple). -/
+theorem gaps_distinct_planes_distinct_indices (nrm : V3) (ps : List V3) (op : Opts) (hsort : op.sort = true)
+    (hmiss : op.allowMissing = true)
+    (hint : Option Rat) (hhint : ∀ h, hint = some h → 0 < h) (rtol atol spR : Rat) (vp : List Int)
+    (h : volumePositionsOf nrm ps op hint rtol atol = .ok (some (spR, vp))) (hmany : (uniqueRows ps).length ≠ 1)
+    (i j : Nat) (hi : i < ps.length) (hj : j < ps.length)
+    (hfar : 2 * (atol + rtol * spR) < nrm.dot ps[j] - nrm.dot ps[i]) :
+    ∃ vi vj : Int, vp[i]? = some vi ∧ vp[j]? = some vj ∧ vi < vj := by
+  obtain ⟨hs0, dmin, _, _, hall⟩ := gaps_accepted_within_tolerance nrm ps op hsort hmiss hint hhint rtol atol spR vp h hmany
+  obtain ⟨vi, hvi, _, hci⟩ := hall i hi
+  obtain ⟨vj, hvj, _, hcj⟩ := hall j hj
+  refine ⟨vi, vj, hvi, hvj, ?_⟩
+  have a := abs_le.mp hci
+  have b := abs_le.mp hcj
+  have : (vi : Rat) * spR < (vj : Rat) * spR := by linarith
+  have := lt_of_mul_lt_mul_right this (le_of_lt hs0)
+  exact_mod_cast this
 
 /-- the witnesses of the repaired defect are refused: a plane half a spacing off the hinted grid, 100 spacings up; without a hint,
 a plane half a spacing off that no refinement of the spacing can place (without a hint `0, 1, 100.5` IS regular at spacing 1.005) -/
@@ -774,6 +839,161 @@ theorem min_gap_jitter_recognised :
     getVolumePositions [[0, 0, 0], [0, 0, -399 / 400], [0, 0, -100]] [1, 0, 0, 0, 1, 0] { allowMissing := true }
       = .ok (some (1, [0, 1, 100])) := by
   decide +kernel
+
+/-- **the estimate is exact on exact stacks**: planes at distances `c + k j · s` (plane numbers strictly increasing from 0, two
+neighbouring planes present): the smallest gap is `s`, every distance is a whole multiple of it and the refinement loop returns
+`s` itself — so `gaps_recognised` reports `s` and the plane numbers `k j` -/
+theorem estimate_exact_on_exact_stacks (c : Rat) {s : Rat} (hs : 0 < s) (hz : isClose s 0 npRtol eqTol = false) (k : Nat → Nat)
+    (hk : StrictMono k) (hk0 : k 0 = 0) {M : Nat} (hadj : ∃ j, j < M ∧ k (j + 1) = k j + 1) :
+    estimateSpacing ((List.range (M + 1)).map fun j => c + ((k j : Nat) : Rat) * s) = .ok (some s) :=
+  estimateSpacing_exact c hs hz k hk hk0 hadj
+
+/-! ### completeness of the estimate: what holds, and the open finding C11-gaps-sparse-start
+
+FULL STATEMENT that the property suggests and that does NOT hold of the code: "with gaps allowed and no hint, a stack all of whose
+planes lie within (a quarter of) the tolerance of `lowest + k_j·s·n` for SOME spacing `s` and whole plane numbers `k_j` (the closest
+pair one apart) is recognised".  The code extrapolates from the smallest gap: `n = round(D/s)`, `s := D/n` over the distances `D`
+above the lowest plane in increasing order.  That finds the plane numbers as long as they grow moderately
+(`gaps_jittered_recognised_partial`); when the plane number jumps by a factor of more than about `s/(2ε)` from one present plane to
+the next (`ε` = how far planes are off the grid), the rounding can hit a neighbouring number and the stack is refused
+(`counterexample_sparse_start_refused`; witness replayed on the implementation by every run: KNOWN-FINDING). -/
+
+/-- **rounded / jittered stacks with gaps are recognised when the plane numbers grow moderately** (the part of the full statement
+that holds).  Stack along a line (rows `f j` at strictly increasing distances `g j`, any input order `js`, duplicates when declared),
+every plane within `ε` of `g 0 + k j · s` (plane numbers `k` strictly increasing from 0, two neighbouring planes present), and
+* `hfirst`: the smallest gap (known to `2ε`) tells the number of the second plane: `2ε(1 + 2 k₁) < s − 2ε`,
+* `hgrow`: the spacing fitted to plane `j` tells the number of plane `j+1`: `2ε(k_j + k_{j+1}) < k_j s − ε`,
+* `hzero`: the spacing is not zero within `1e-5`; `htol`: `2ε ≤ atol + rtol (s − ε)` (planes within about half the tolerance);
+* the span between the extreme planes is perpendicular.
+Then the answer is the spacing FITTED TO THE EXTENT, `(g M − g 0) / k M`, and the true plane number `k j` of every row. -/
+theorem gaps_jittered_recognised_partial (nrm : V3) (f : Nat → V3) (g : Nat → Rat) (hfg : ∀ j, nrm.dot (f j) = g j)
+    (hg : StrictMono g) (js : List Nat) {M : Nat} (hM : 1 ≤ M) (hmem : ∀ j, j ∈ js ↔ j < M + 1) (op : Opts)
+    (hsort : op.sort = true) (hmiss : op.allowMissing = true) (hdup : op.allowDuplicate = true ∨ js.Nodup)
+    {s ε : Rat} (hε : 0 ≤ ε) (k : Nat → Nat) (hk : StrictMono k) (hk0 : k 0 = 0)
+    (hadj : ∃ a, a < M ∧ k (a + 1) = k a + 1)
+    (hnear : ∀ j, j ≤ M → |g j - g 0 - (k j : Rat) * s| ≤ ε)
+    (hfirst : 2 * ε * (1 + 2 * (k 1 : Rat)) < s - 2 * ε)
+    (hgrow : ∀ j, 1 ≤ j → j < M → 2 * ε * ((k j : Rat) + (k (j + 1) : Rat)) < (k j : Rat) * s - ε)
+    (hzero : eqTol < s - 2 * ε)
+    {rtol atol : Rat} (hr : 0 ≤ rtol) (htol : 2 * ε ≤ atol + rtol * (s - ε))
+    (hperp : isPerpendicular nrm ((f M).sub (f 0)) = true) :
+    volumePositionsOf nrm (js.map f) op none rtol atol
+      = .ok (some ((g M - g 0) / (k M : Rat), js.map fun j => ((k j : Nat) : Int))) := by
+  have hk1 : 1 ≤ k 1 := by have := hk (Nat.zero_lt_one); omega
+  have hk1Q : (1 : Rat) ≤ (k 1 : Rat) := by exact_mod_cast hk1
+  have h8 : 8 * ε < s := by nlinarith
+  obtain ⟨m, hmin⟩ := minList_ne_none (diffs_mem g (M + 1) 0 (by omega))
+  obtain ⟨hm_lo, hm_hi, hsp⟩ := refineSpacing_jittered g hg hM hε k hk hk0 hadj hnear hfirst hgrow hmin
+  have hm0 : 0 < m := by linarith
+  have hz : isClose m 0 npRtol eqTol = false := by
+    unfold isClose
+    have : rabs (m - 0) = m := by rw [sub_zero]; exact rabs_of_pos hm0
+    have r0 : rabs (0 : Rat) = 0 := by decide +kernel
+    rw [this, r0, mul_zero, add_zero]
+    exact decide_eq_false (by linarith)
+  have hcrit := gaps_without_hint_criterion nrm f g hfg hg js hM hmem op hsort hmiss hdup hmin hz rtol atol
+  simp only [hsp] at hcrit
+  rw [hcrit]
+  -- the fitted spacing
+  have hkM : 1 ≤ k M := by
+    have := hk (show 0 < M by omega); omega
+  have hkMQ : (1 : Rat) ≤ (k M : Rat) := by exact_mod_cast hkM
+  have hkM0 : (0 : Rat) < (k M : Rat) := by linarith
+  have EM := abs_le.mp (hnear M (le_refl _))
+  set sp := (g M - g 0) / (k M : Rat) with hspdef
+  have hsp_lo : s - ε ≤ sp := by
+    rw [hspdef, le_div_iff₀ hkM0]; nlinarith
+  have hsp0 : 0 < sp := by linarith
+  have hDM : g M - g 0 = (k M : Rat) * sp := by rw [hspdef]; field_simp
+  -- every plane within 2 ε of its multiple of the fitted spacing
+  have hdev : ∀ j, j ≤ M → |(g j - g 0) / sp - (k j : Rat)| ≤ 2 * ε / sp := by
+    intro j hj
+    have Ej := abs_le.mp (hnear j hj)
+    have hkj : k j ≤ k M := hk.monotone hj
+    have hkjQ : (k j : Rat) ≤ (k M : Rat) := by exact_mod_cast hkj
+    have hkj0 : (0 : Rat) ≤ (k j : Rat) := Nat.cast_nonneg _
+    have e : (g j - g 0) / sp - (k j : Rat) = ((g j - g 0) - (k j : Rat) * sp) / sp := by field_simp
+    rw [e, abs_div, abs_of_pos hsp0]
+    apply div_le_div_of_nonneg_right _ (le_of_lt hsp0)
+    -- (g j − g 0) − k j sp = E j − k j (sp − s), and k M (sp − s) = E M
+    have hd : |sp - s| * (k M : Rat) ≤ ε := by
+      have : (sp - s) * (k M : Rat) = g M - g 0 - (k M : Rat) * s := by rw [hDM]; ring
+      rw [← abs_of_pos hkM0, ← abs_mul, this]; exact hnear M (le_refl _)
+    have hd2 : |sp - s| * (k j : Rat) ≤ ε := le_trans (mul_le_mul_of_nonneg_left hkjQ (abs_nonneg _)) hd
+    have e2 : (g j - g 0) - (k j : Rat) * sp = (g j - g 0 - (k j : Rat) * s) - (sp - s) * (k j : Rat) := by ring
+    rw [e2]
+    calc |(g j - g 0 - (k j : Rat) * s) - (sp - s) * (k j : Rat)|
+        ≤ |g j - g 0 - (k j : Rat) * s| + |(sp - s) * (k j : Rat)| := abs_sub _ _
+      _ ≤ ε + ε := by
+          apply add_le_add (hnear j hj)
+          rw [abs_mul, abs_of_nonneg hkj0]; exact hd2
+      _ = 2 * ε := by ring
+  have hround : ∀ j, j ≤ M → roundHalfEven ((g j - g 0) / sp) = ((k j : Nat) : Int) := by
+    intro j hj
+    have h := abs_le.mp (hdev j hj)
+    have hq : 2 * ε / sp < 1 / 2 := by rw [div_lt_iff₀ hsp0]; linarith
+    apply roundHalfEven_eq_of_near <;> push_cast <;> linarith
+  have hall : ((List.range (M + 1)).all fun j =>
+      isClose ((g j - g 0) / sp) ((roundHalfEven ((g j - g 0) / sp) : Int) : Rat) 0 (rtol + atol / rabs sp)) = true := by
+    rw [List.all_eq_true]
+    intro j hj
+    have hj' : j ≤ M := by have := List.mem_range.mp hj; omega
+    rw [hround j hj', rabs_of_pos hsp0]
+    unfold isClose
+    rw [zero_mul, add_zero, rabs_eq_abs]
+    apply decide_eq_true
+    push_cast
+    refine le_trans (hdev j hj') ?_
+    have : rtol + atol / sp = (rtol * sp + atol) / sp := by field_simp
+    rw [this]
+    apply div_le_div_of_nonneg_right _ (le_of_lt hsp0)
+    nlinarith
+  rw [hall, hperp]
+  simp only [Bool.and_self, if_true]
+  congr 3
+  apply List.map_congr_left
+  intro j hj
+  exact hround j (by have := (hmem j).mp hj; omega)
+
+
+/-- the planes of the open finding's witness ARE regular (spacing 1, numbers 0, 400, 401, 531, every plane within 0.0025 = a quarter
+of the 1 % tolerance of its multiple) and are recognised when the spacing is declared — without a hint they are refused: the
+smallest gap 0.995 puts the second plane at number `round(400.0025 / 0.995) = 402` -/
+theorem counterexample_sparse_start_refused :
+    getVolumePositions [[0, 0, 0], [0, 0, -160001 / 400], [0, 0, -160399 / 400], [0, 0, -531]] [1, 0, 0, 0, 1, 0]
+      { allowMissing := true } = .ok none ∧
+    getVolumePositions [[0, 0, 0], [0, 0, -160001 / 400], [0, 0, -160399 / 400], [0, 0, -531]] [1, 0, 0, 0, 1, 0]
+      { allowMissing := true, hint := some 1 } = .ok (some (1, [0, 400, 401, 531])) ∧
+    (∀ zk ∈ [((0 : Rat), (0 : Rat)), (160001 / 400, 400), (160399 / 400, 401), (531, 531)], |zk.1 - zk.2 * 1| ≤ (1 / 100) / 4) := by
+  refine ⟨by decide +kernel, by decide +kernel, ?_⟩
+  intro zk h
+  simp only [List.mem_cons, List.not_mem_nil, or_false] at h
+  rcases h with rfl | rfl | rfl | rfl <;> rw [abs_le] <;> constructor <;> norm_num
+
+/-- non-vacuity of `gaps_jittered_recognised_partial`: the former witness of C11-gaps-min-gap-estimate (planes at 0, 0.9975, 100;
+numbers 0, 1, 100; `s = 1`, `ε = 1/400`, `rtol = 1 %`) satisfies every hypothesis -/
+example : StrictMono (fun j : Nat => if j < 2 then (399 / 400 : Rat) * j else 98 + j) := by
+  intro a b h
+  simp only
+  have ha : (a : Rat) < (b : Rat) := by exact_mod_cast h
+  split_ifs with h1 h2 h2
+  · nlinarith
+  · have : (2 : Rat) ≤ (b : Rat) := by exact_mod_cast (not_lt.mp h2)
+    have : (a : Rat) < 2 := by exact_mod_cast h1
+    nlinarith
+  · omega
+  · linarith
+example : StrictMono (fun j : Nat => if j < 2 then j else 98 + j) := by
+  intro a b h; simp only; split_ifs <;> omega
+example : ∀ j, j ≤ 2 → |(fun j : Nat => if j < 2 then (399 / 400 : Rat) * j else 98 + j) j
+    - (fun j : Nat => if j < 2 then (399 / 400 : Rat) * j else 98 + j) 0
+    - (((fun j : Nat => if j < 2 then j else 98 + j) j : Nat) : Rat) * 1| ≤ 1 / 400 := by
+  intro j hj
+  have : j = 0 ∨ j = 1 ∨ j = 2 := by omega
+  rcases this with rfl | rfl | rfl <;> norm_num [abs_le]
+example : 2 * (1 / 400 : Rat) * (1 + 2 * (1 : Rat)) < 1 - 2 * (1 / 400) ∧ 2 * (1 / 400 : Rat) * (1 + 100) < 1 * 1 - 1 / 400 ∧
+    eqTol < 1 - 2 * (1 / 400) ∧ 2 * (1 / 400 : Rat) ≤ 0 + (1 / 100) * (1 - 1 / 400) := by decide +kernel
+example : isPerpendicular ⟨0, 0, -1⟩ ((⟨0, 0, -100⟩ : V3).sub ⟨0, 0, 0⟩) = true := by decide +kernel
 
 /-- a hint normalises to its absolute value; a zero hint is refused -/
 theorem hint_options (h : Rat) (hh : h ≠ 0) : normaliseOpts { hint := some h } = .ok (some (rabs h), defaultRtol, 0) := by
